@@ -68,6 +68,7 @@ func NewWalletManager(server Server, db mwdb.DB, config *config.Config,
 		server:       server,
 		usedCache:    cache.New(5*time.Minute, 10*time.Minute),
 	}
+	simNewCache(w.usedCache)
 
 	err := mwdb.Update(db, func(tx mwdb.DBTransaction) error {
 		// init KeystoreManager
